@@ -240,6 +240,27 @@ struct Exec {
    {
       MSSMNoFV_onshell* h = w.mh[s];
       MM& m = *w.mm[s];
+      // problem/warning flags and texts
+      for (const char* fn : {"gm2calc_mssmnofv_have_problem", "gm2calc_mssmnofv_have_warning"}) {
+         const CFunc* f = find_cfunc(fn);
+         if (!f || !f->p) continue;
+         label(fn);
+         Out c = call_c_mssm(*f, h, 0, 0, 0, 0);
+         if (c.escaped) { violation("escape:" + std::string(fn) + ":" + c.exc, std::string("during state comparison ") + when); return; }
+         const bool mb = std::string(fn).find("problem") != std::string::npos ? m.get_problems().have_problem() : m.get_problems().have_warning();
+         if ((c.ival != 0) != mb) { violation("state:" + std::string(fn), std::string(when) + ": C=" + std::to_string(c.ival) + " C++=" + std::to_string(mb)); return; }
+      }
+      for (const char* fn : {"gm2calc_mssmnofv_get_problems", "gm2calc_mssmnofv_get_warnings"}) {
+         const CFunc* f = find_cfunc(fn);
+         if (!f || !f->p || std::string(f->sig) != "_M_s_u") continue;
+         label(fn);
+         char big[2048]; std::memset(big, 0x5A, sizeof big);
+         try { ((void (*)(MSSMNoFV_onshell*, char*, unsigned))f->p)(h, big, (unsigned)sizeof big); }
+         catch (...) { violation("escape:" + std::string(fn) + ":" + current_exception_class(), std::string("during state comparison ") + when); return; }
+         big[sizeof big - 1] = 0;
+         const std::string want = std::string(fn).find("problems") != std::string::npos ? m.get_problems().get_problems() : m.get_problems().get_warnings();
+         if (std::string(big) != want.substr(0, sizeof big - 1)) { violation("state:" + std::string(fn), std::string(when) + ": C='" + std::string(big).substr(0, 80) + "' C++='" + want.substr(0, 80) + "'"); return; }
+      }
       for (auto& e : mssm_entries()) {
          if (e.kind != K_GETTER) continue;
          const CFunc* f = find_cfunc("gm2calc_mssmnofv_" + e.name);
